@@ -295,6 +295,7 @@ class Engine(Executor, Calls):
             self.in_init = None
 
     init_ok = set()
+    init_conj = None
     sentinels = {}
     base_axioms = []
     init_notes = []
